@@ -214,9 +214,12 @@ check("C10", "fault_enumeration",
       "for five representative encrypted records: every single-bit flip at every byte offset, every truncation length, all 256 "
       "event-type bytes, all 256 key ids against a 2-key and a 1-key registry, a different key pair; parser+decryptor on all byte "
       "strings of length 0,1,2; LengthDelimitedStream<EncryptedHybridReport> on every 2-byte length prefix (0..600 + boundaries; "
-      "all 65536 in thorough) with an absent, short and exact body. distinct_nontrivial = distinct tampered records / inputs executed.",
+      "all 65536 in thorough) with an absent, short and exact body; every sequence of <= 3 length-prefixed records over {valid "
+      "impression, valid conversion, empty, truncated, unknown event type} x 5 chunkings (one chunk, per record, inside every "
+      "record, 7-byte pieces, byte by byte): well-formed bodies are handed out completely, a malformed record k gives an error after "
+      "at most k records, never a silent skip. distinct_nontrivial = distinct tampered records / inputs executed.",
       [{"name": "reports", "config": "A", "test": "verif::c10::run",
-        "require": {"any": {"tamper_rejected": 3000, "roundtrip_reports": 100}}}],
+        "require": {"any": {"tamper_rejected": 3000, "roundtrip_reports": 100, "record_sequence_cases": 500}}}],
       assumptions=["HPKE (hpke crate, X25519-HKDF-SHA256 / AES-128-GCM) is executed, not explored; an accepted forgery has negligible probability"],
       exhaustive=True, engine="E3 fault + E5 domain",
       technique="exhaustive single-fault enumeration (every bit, every truncation, every type/key byte) on real encrypted records; "
